@@ -478,6 +478,26 @@ func runC09(c *Ctx) {
 				reqs = append(reqs, c09Req{method: "GET", target: t + "?i32=x", hdr: [][2]string{{"Accept", acc}}, entry: "transcoding", options: "directed-accept"})
 			}
 		}
+		// compressed request bodies on the STREAMING transcoding routes (a stream codec reads on after
+		// the read that reported end-of-data together with the last bytes), valid, truncated and junk
+		for _, t := range []string{"/v1/up", "/v1/upload/f", "/" + fxPkg + ".Svc/Up"} {
+			for _, ct := range []string{"application/json", "application/protobuf"} {
+				var plain []byte
+				for k := 0; k < 3; k++ {
+					if ct == "application/json" {
+						plain = append(plain, []byte(fmt.Sprintf(`{"name":"z%d"}`, k))...)
+					} else {
+						plain = append(plain, 4, 10, 2, 'z', byte('0'+k))
+					}
+				}
+				z := gzipBytes(plain)
+				for _, b := range [][]byte{z, z[:len(z)/2], z[:len(z)-1], append(append([]byte{}, z...), z...), []byte("not gzip"), nil} {
+					for _, eofd := range []bool{false, true} {
+						reqs = append(reqs, c09Req{method: "POST", target: t, hdr: [][2]string{{"Content-Type", ct}, {"Content-Encoding", "gzip"}}, body: b, entry: "transcoding", options: "directed-gzip-stream", eofd: eofd})
+					}
+				}
+			}
+		}
 		for _, q := range reqs {
 			for _, mux := range []http.Handler{fxA.Mux, fxB.Mux} {
 				r := httptest.NewRequest(q.method, q.target, &schedReader{data: append([]byte(nil), q.body...), eofWithData: q.eofd})
